@@ -1,6 +1,7 @@
 package core
 
 import (
+	"go/ast"
 	"go/token"
 	"go/types"
 
@@ -201,4 +202,91 @@ func droppedOn(fn *ssa.Function, ev ssa.Value) *DroppedError {
 		}
 	}
 	return nil
+}
+
+// DeadErrorStores finds `x, err = f()` / `err := f()` where the error is assigned to a named
+// variable but that value is never read afterwards (typically because a shadowed variable of
+// the same name is the one checked or returned). go/ssa drops such stores, so the call's error
+// result has no referrer although the source binds it to a non-blank name.
+func DeadErrorStores(fn *ssa.Function, info *types.Info) []ssa.Instruction {
+	syn := fn.Syntax()
+	if syn == nil || info == nil {
+		return nil
+	}
+	var body *ast.BlockStmt
+	switch x := syn.(type) {
+	case *ast.FuncDecl:
+		body = x.Body
+	case *ast.FuncLit:
+		body = x.Body
+	}
+	if body == nil {
+		return nil
+	}
+	callAt := map[token.Pos]*ssa.Call{}
+	for _, b := range fn.Blocks {
+		for _, in := range b.Instrs {
+			if c, ok := in.(*ssa.Call); ok {
+				callAt[c.Pos()] = c
+			}
+		}
+	}
+	var out []ssa.Instruction
+	var walk func(n ast.Node)
+	walk = func(n ast.Node) {
+		ast.Inspect(n, func(x ast.Node) bool {
+			if fl, ok := x.(*ast.FuncLit); ok && x != n {
+				_ = fl
+				return false // a separate function
+			}
+			as, ok := x.(*ast.AssignStmt)
+			if !ok || len(as.Rhs) != 1 {
+				return true
+			}
+			ce, ok := ast.Unparen(as.Rhs[0]).(*ast.CallExpr)
+			if !ok {
+				return true
+			}
+			c := callAt[ce.Lparen]
+			if c == nil {
+				return true
+			}
+			for i, l := range as.Lhs {
+				id, ok := l.(*ast.Ident)
+				if !ok || id.Name == "_" {
+					continue
+				}
+				var t types.Type
+				if tup, ok := c.Type().(*types.Tuple); ok {
+					if i >= tup.Len() {
+						continue
+					}
+					t = tup.At(i).Type()
+				} else if i == 0 {
+					t = c.Type()
+				}
+				if t == nil || !types.Identical(t, errType) {
+					continue
+				}
+				used := false
+				if refs := c.Referrers(); refs != nil {
+					for _, r := range *refs {
+						if _, isTup := c.Type().(*types.Tuple); isTup {
+							if ex, ok := r.(*ssa.Extract); ok && ex.Index == i && ex.Referrers() != nil && len(*ex.Referrers()) > 0 {
+								used = true
+							}
+						} else {
+							used = true
+						}
+					}
+				}
+				if !used {
+					out = append(out, c)
+				}
+			}
+			return true
+		})
+	}
+	walk(body)
+	return out
 }
